@@ -39,6 +39,8 @@ type vfC19Env struct {
 	n     int
 	since string
 	test  string
+
+	lastRaw map[string]string // last text written externally per document (auto-import path)
 }
 
 func vfC19NewEnv(t *testing.T, test string, autoImport bool, mutate func(c *RestTesterConfig)) *vfC19Env {
@@ -48,7 +50,7 @@ func vfC19NewEnv(t *testing.T, test string, autoImport bool, mutate func(c *Rest
 	}
 	rt := NewRestTester(t, cfg)
 	_ = rt.GetDatabase()
-	return &vfC19Env{t: t, rt: rt, ks: rt.GetSingleKeyspace(), ctx: rt.Context(), since: "0", test: test}
+	return &vfC19Env{t: t, rt: rt, ks: rt.GetSingleKeyspace(), ctx: rt.Context(), since: "0", test: test, lastRaw: map[string]string{}}
 }
 
 func (e *vfC19Env) Close() { e.rt.Close() }
@@ -276,10 +278,17 @@ func (e *vfC19Env) write(path, docID string, body *vfC19Val, st *vfC19Style, par
 		// the new revision id is learnt from the changes feed
 		text = ser(body)
 		*ops = append(*ops, fmt.Sprintf("external SetRaw %q %s; (auto-import)", docID, text))
+		if parent != "" && e.lastRaw[docID] == text {
+			// byte-identical external rewrite: not a new revision (the import recognises its own body)
+			*ops = append(*ops, "(identical bytes: no new revision expected)")
+			res.Code, res.RevID = 201, parent
+			return
+		}
 		if err := e.rt.GetSingleDataStore().SetRaw(e.ctx, docID, 0, nil, []byte(text)); err != nil {
 			res.Code, res.Reason = -1, "SetRaw: "+err.Error()
 			return
 		}
+		e.lastRaw[docID] = text
 		deadline := time.Now().Add(vfC19WaitBound)
 		for res.RevID == "" {
 			r := e.do("GET", "/_changes?since="+url.QueryEscape(e.since), "", nil)
@@ -317,6 +326,8 @@ type vfC19Checker struct {
 	paths  map[string]bool
 	expSet bool
 	revsOK bool // the request asked for the revision history (revs=true)
+
+	skippedChanges bool
 }
 
 func (c *vfC19Checker) fail(format string, a ...any) {
@@ -525,6 +536,14 @@ func vfC19MustSer(v *vfC19Val) string {
 // inconclusive.
 func (c *vfC19Checker) changes(current *vfC19Rev) {
 	e := c.e
+	if current.Feature.HugeFloat {
+		// A document holding a literal outside the float64 range cannot be indexed by the test
+		// store's view engine ("Unparseable JSRunner input"), so a changes request that is answered
+		// from the channel query instead of the cache never lists it (same root as DESIGN §5a item 15;
+		// not a body-fidelity question). The feed is not read for such a document.
+		c.skippedChanges = true
+		return
+	}
 	what := "_changes?include_docs=true"
 	deadline := time.Now().Add(vfC19WaitBound)
 	for {
@@ -564,7 +583,11 @@ func (c *vfC19Checker) changes(current *vfC19Rev) {
 			return
 		}
 		if time.Now().After(deadline) {
-			panic(kit.InconclusiveErr{Msg: fmt.Sprintf("changes row for %q rev %s did not appear within %v", c.docID, current.RevID, vfC19WaitBound)})
+			seen := "no row for the document"
+			if row != nil {
+				seen = "row " + vfC19Short(row.Without(map[string]bool{"doc": true}))
+			}
+			panic(kit.InconclusiveErr{Msg: fmt.Sprintf("changes row for %q rev %s did not appear within %v since=%s (%s; status %d, decode error %v)", c.docID, current.RevID, vfC19WaitBound, e.since, seen, r.Code, err)})
 		}
 		time.Sleep(time.Millisecond)
 	}
@@ -768,6 +791,9 @@ func TestVerif_C19_RestPaths(t *testing.T) {
 				c.expSet = true
 			}
 			c.readAll(current, leaves, old)
+			if c.skippedChanges {
+				classes = append(classes, "changes-read-skipped(out-of-float-range literal)")
+			}
 		})
 		if len(c.paths) < 2 {
 			nontrivial = false
